@@ -21,9 +21,9 @@ func C10(c *core.Ctx) {
 	work := c.WorkDir()
 	defer os.RemoveAll(work)
 	cfgs := []crashConfig{
-		{"syncwrites+plain", 7, "plain", true, 4, 60},
-		{"syncwrites+base+deletes", 0, "deletes", true, 4, 60},
-		{"syncwrites+aes128+gc", 3, "gc", true, 4, 60},
+		{"syncwrites+plain", 7, "plain", true, 4, 60, 0},
+		{"syncwrites+base+deletes", 0, "deletes", true, 4, 60, 0},
+		{"syncwrites+aes128+gc", 3, "gc", true, 4, 60, 0},
 	}
 	if !c.Thorough() {
 		cfgs = cfgs[:2]
